@@ -312,6 +312,19 @@ func (c *Wallet) checkAuth(authToken string) error {
 	return nil
 }
 
+// checkSession rejects every auth token that is not a live token of this wallet's user.
+// It guards the features which need neither the content store nor the key manager of the session
+// and therefore would not notice an unknown, closed or expired token by themselves.
+func (c *Wallet) checkSession(authToken string) error {
+	if err := c.checkAuth(authToken); err != nil {
+		return err
+	}
+
+	_, err := sessionManager().getSession(authToken)
+
+	return err
+}
+
 // Export produces a serialized exported wallet representation.
 // Only ciphertext wallet contents can be exported.
 //
@@ -559,7 +572,7 @@ func (c *Wallet) Prove(authToken string, proofOptions *ProofOptions, credentials
 //
 // Returns: a boolean verified, and an error if verified is false.
 func (c *Wallet) Verify(authToken string, options VerificationOption) (bool, error) {
-	if err := c.checkAuth(authToken); err != nil {
+	if err := c.checkSession(authToken); err != nil {
 		return false, err
 	}
 
@@ -590,7 +603,7 @@ func (c *Wallet) Verify(authToken string, options VerificationOption) (bool, err
 //		- credential to derive (ID of the stored credential, raw credential or credential instance).
 //		- derive options.
 func (c *Wallet) Derive(authToken string, credential CredentialToDerive, options *DeriveOptions) (*verifiable.Credential, error) { //nolint: lll
-	if err := c.checkAuth(authToken); err != nil {
+	if err := c.checkSession(authToken); err != nil {
 		return nil, err
 	}
 
@@ -648,7 +661,7 @@ func (c *Wallet) CreateKeyPair(authToken string, keyType kms.KeyType) (*KeyPair,
 //   - list of resolved descriptors.
 //   - error if operation fails.
 func (c *Wallet) ResolveCredentialManifest(authToken string, manifest json.RawMessage, resolve ResolveManifestOption) ([]*cm.ResolvedDescriptor, error) { //nolint: lll,gocyclo
-	if err := c.checkAuth(authToken); err != nil {
+	if err := c.checkSession(authToken); err != nil {
 		return nil, err
 	}
 
